@@ -14,7 +14,7 @@ def plan(tier):
     return {
         "conds": conds,
         "min_classes": 150,
-        "explanation": 'C09: an applied instruction either puts the vehicle into the instructed activity with its side effects (counters, request record, applied_instructions) touching nothing but the vehicle and its old/new targets, or leaves the whole simulation state structurally unchanged. H09-other: two instructions in one call, one rejected: the joint result equals the accepted one alone. H09-precedence: real StepSimulation.update with three stub generators emitting symbolic instructions and the vehicle's own driver: exactly one instruction is logged and applied per vehicle -- the driver's if it spoke, else the last generator's.',
+        "explanation": 'C09: an applied instruction either puts the vehicle into the instructed activity with its side effects (counters, request record, applied_instructions) touching nothing but the vehicle and its old/new targets, or leaves the whole simulation state structurally unchanged. H09-other: two instructions in one call, one rejected: the joint result equals the accepted one alone. H09-precedence: real StepSimulation.update with three stub generators emitting symbolic instructions and the driver of the vehicle: exactly one instruction is logged and applied per vehicle -- the one from the driver if it spoke, else the one from the last generator that spoke.',
         "entry_points": ['step_simulation_ops.apply_instructions', 'StepSimulation.update', 'instruction_generator_ops.generate_instructions', 'DictOps.add_to_stack_dict/pop_from_stack_dict', 'AutonomousAvailable.generate_instruction'],
         "bounds": C.ARENA_BOUNDS + C.T_BOUNDS,
         "outside": C.T_OUTSIDE,
